@@ -49,7 +49,8 @@ PARTIAL = ['clause "a well-formed document to which a single unmatched delimiter
            'such a body): error of the matching raise site located AT the token, reader right after it, whatever follows; '
            'hypothesis: the left context and the items in front of the token are well formed IN FRONT OF everything that is '
            'written after them (the side conditions of the extended grammar are evaluated against the follow string; the rest '
-           'of the input is otherwise arbitrary). Opening delimiters in extended documents, paths through macro arguments / '
+           'of the input is otherwise arbitrary; C05_fault_closing2_doc_ws_partial: ok_doc2 of the document suffices when it ends with '
+           'whitespace and no specials sequence contains a backslash / closing brace). Opening delimiters in extended documents, paths through macro arguments / '
            'specials arguments / delimited arguments, and every other fault position of extended documents: correspondence + '
            'oracle only. Proved in Coq for every string: '
            'C05_no_other_exception(_run, _any_fuel), C05_result_shape, C05_errors_located(_top), C05_error_line_col',
